@@ -499,7 +499,6 @@ func (lb *LoadBalancer) RemoveBackend(name string) {
 	for _, backend := range lb.strategy.GetBackends() {
 		if backend.Name == name {
 			lb.strategy.RemoveBackend(backend)
-			break
 		}
 	}
 }
